@@ -237,6 +237,9 @@ impl C13 {
                 tr.add(a.sim.instructions_run);
                 tr.add(ta);
                 let what = format!("after call #{i} {op:?} (stepped twin stopped by {sb:?})");
+                if std::env::var_os("VERIF_DEBUG").is_some() {
+                    eprintln!("C13 {what}: A pc x{:04X} n {} ticks +{ta}, kb {:?}", a.sim.pc, a.sim.instructions_run, a.host.kb_contents());
+                }
                 if self.observer_arm {
                     // C28 accumulation arm: only meaningful while the two executions agree
                     if state_diff(&mut a, &mut b, &what).is_some() || ta != tb {
@@ -324,7 +327,13 @@ impl C13 {
                 let rb = if let Op::Step(n) = op {
                     let mut sink = Acc::new();
                     let mut res = Ok(OpRes::Drive(Ok(())));
+                    let halt_rt = lc3_ensemble::sim::_os_obj_file().symbol_table().and_then(|s| s.lookup_label("TRAP_HALT")).unwrap_or(0);
                     for _ in 0..*n {
+                        // single steps taken inside the OS halt routine (whatever happens next: the loop
+                        // again, an interrupt) are not part of what one unbroken run() executes
+                        if scn.flags.real_traps && (halt_rt..halt_rt + 3).contains(&b.sim.pc) {
+                            unbroken_ok = false;
+                        }
                         match tracked_step(&mut b, &mut depth_b, &mut sink) {
                             Ok((Ok(()), halted)) => {
                                 // single steps that sat on a virtual HALT kept polling the devices (timers
@@ -375,6 +384,10 @@ impl C13 {
                     fail!(scn.ops.len(), "panic-in-run", p);
                 }
                 out.bump("probe.unbroken-compared");
+                if std::env::var_os("VERIF_DEBUG").is_some() {
+                    let tc = ticks(&c.log.0.lock().unwrap_or_else(|e| e.into_inner()).recs);
+                    eprintln!("C13 unbroken: A pc x{:04X} n {} psr x{:04X} ticks {total_ticks}; C pc x{:04X} n {} psr x{:04X} ticks {tc} r {:?} halt {}", a.sim.pc, a.sim.instructions_run, a.sim.psr().get(), c.sim.pc, c.sim.instructions_run, c.sim.psr().get(), r.as_ref().map(|x| x.is_ok()), c.sim.hit_halt());
+                }
                 if let Some((cl, d)) = state_diff(&mut a, &mut c, "segmented execution vs one unbroken run()") {
                     fail!(scn.ops.len(), format!("split-{cl}"), d);
                 }
